@@ -51,12 +51,14 @@ def StrU : U → Bool
   | .bin k a b => k = .concat && (StrU a || NumU a) && (StrU b || NumU b)
   | _ => false
 /-- boolean API-call trees: comparisons and IS / IS NOT of numeric or string-valued trees,
-    `== NULL`-style tests, `and_` / `or_` of one or more boolean trees, `~` -/
+    `== NULL`-style tests, `like` / `not_like` / `ilike` / `not_ilike` (with or without `escape=`) of string-valued trees,
+    `and_` / `or_` of one or more boolean trees, `~` -/
 def BoolU : U → Bool
   | .bin k a b =>
     cmpK k && (NumU a || StrU a) &&
       ((NumU b || StrU b) ||
         (match b with | .null => k = .eq || k = .ne || k = .is_ || k = .isnot | _ => false))
+  | .like _ _ a b => StrU a && StrU b
   | .not_ a => BoolU a
   | .and_ cs => !cs.isEmpty && BoolUList cs
   | .or_ cs => !cs.isEmpty && BoolUList cs
@@ -96,7 +98,7 @@ theorem NumE.opnd {e : SaExpr} (h : NumE e) : OpndE e := ⟨h.core, h.wg, h.shap
 
 /-- shapes `build` produces for boolean trees, with what `negate` needs to know -/
 def boolShape : SaExpr → Bool
-  | .binary op _ _ (some n) none _ => coreBin op && coreBin n
+  | .binary op _ _ (some n) esc _ => (coreBin op && coreBin n && esc.isNone) || likePair op n
   | .clist op _ _ true _ => op = .and_ || op = .or_
   | .unary op _ _ => op = .inv
   | _ => false
@@ -331,7 +333,7 @@ theorem adapt_concat : ∀ lt rt : Ty, (adaptExpression .concat_op lt rt).1 = .c
 
 /-- `x.concat(y)` over value operands (`_binary_operate` with `concat_op`) -/
 theorem binaryOperate_concat (x y : SaExpr) (hx : OpndE x) (hy : OpndE y) :
-    OpndE (binaryOperate x .concat_op y) := by
+    OpndE (binaryOperate x .concat_op y) ∧ catOpnd (binaryOperate x .concat_op y) = true := by
   have h1 := adapt_concat (tyOf x) (tyOf y)
   unfold binaryOperate
   have e : adaptExpression .concat_op (tyOf x) (tyOf y) =
@@ -340,8 +342,9 @@ theorem binaryOperate_concat (x y : SaExpr) (hx : OpndE x) (hy : OpndE y) :
   simp only
   obtain ⟨c, w, _, sh⟩ := constructForOp_core x y .concat_op (adaptExpression .concat_op (tyOf x) (tyOf y)).2 none
     rfl hx.core hx.wg hy.core hy.wg
-  refine ⟨c, w, ?_⟩
-  rcases sh with ⟨a, b, he⟩ | ⟨_, cs, he⟩ <;> rw [he] <;> rfl
+  rcases sh with ⟨a, b, he⟩ | ⟨_, cs, he⟩
+  · exact ⟨⟨c, w, by rw [he]; rfl⟩, by rw [he]; rfl⟩
+  · exact ⟨⟨c, w, by rw [he]; rfl⟩, by rw [he]; rfl⟩
 
 theorem negImpl_num (x : SaExpr) (hx : NumE x) : NumE (negImpl x) := by
   obtain ⟨c, w⟩ := unary_WG x .neg (tyOf x) rfl hx.core hx.wg
@@ -396,6 +399,20 @@ open SaVerif.Expr.Gen SaVerif.Pratt SaExpr
 
 /-! ### negation -/
 
+theorem wouldGroup_closed (a : Option Op) (c : SaExpr) (h : closedE c = true) : wouldGroup a c = false := by
+  cases c <;> simp [closedE, rootOp] at h <;> rfl
+
+/-- `self_group` leaves an operand without root operator alone (outside boolean contexts) -/
+theorem selfGroup_closed (a : Op) (c : SaExpr) (h : closedE c = true) (hb : boolCtx a = false) :
+    selfGroup (some a) c = c := by
+  have hcol : columnSelfGroup (some a) c = c := by
+    simp only [boolCtx, Bool.or_eq_false_iff, decide_eq_false_iff_not] at hb
+    simp [columnSelfGroup, hb.1.1, hb.1.2, hb.2]
+  unfold selfGroup
+  rw [wouldGroup_closed _ c h]
+  simp only [Bool.false_eq_true, if_false]
+  cases c <;> first | rfl | exact hcol | (simp [closedE, rootOp] at h)
+
 theorem negateInBinary_core (r : SaExpr) (n op : Op) (h : Core r = true) : negateInBinary r n op = r := by
   cases r <;> first | rfl | (simp [Core] at h)
 
@@ -414,16 +431,32 @@ theorem negate_bool (e : SaExpr) (h : BoolE e) : BoolE (negate e) := by
     cases n with
     | none => simp [boolShape] at hs
     | some n =>
-      cases esc with
-      | some x => simp [boolShape] at hs
-      | none =>
-        simp only [boolShape] at hs
-        simp only [Core, Bool.and_eq_true] at hc
-        simp only [WG, Bool.and_eq_true] at hw
-        simp only [negate, negateInBinary_core r n op hc.2]
-        simp only [Bool.and_eq_true] at hs
-        obtain ⟨c, w⟩ := mkBinary_WG l r n ty (some op) hs.2 hc.1.2 hw.1.2 hc.2 hw.2
-        exact ⟨c, w, by simp [mkBinary, boolShape, hs.1, hs.2]⟩
+      obtain ⟨hcl, hcr, hk⟩ := core_binary hc
+      simp only [WG, Bool.and_eq_true] at hw
+      simp only [negate, negateInBinary_core r n op hcr]
+      simp only [boolShape, Bool.or_eq_true, Bool.and_eq_true] at hs
+      rcases hs with hs | hs
+      · obtain ⟨c, w⟩ := mkBinary_WG l r n ty (some op) hs.1.2 hcl hw.1.2 hcr hw.2
+        have he : esc = none := by cases esc <;> simp at hs ⊢
+        subst he
+        exact ⟨c, w, by simp [mkBinary, boolShape, hs.1.1, hs.1.2]⟩
+      · -- the LIKE family: operands are closed, `self_group` leaves them alone
+        have hlo : likeOp op = true := by
+          cases op <;> cases n <;> simp [likePair] at hs <;> rfl
+        have hln : likeOp n = true ∧ likePair n op = true := by
+          cases op <;> cases n <;> simp [likePair] at hs <;> exact ⟨rfl, rfl⟩
+        rcases hk with ⟨hbd, _⟩ | ⟨_, cl, cr⟩
+        · rw [coreBinD_not_like hbd] at hlo; cases hlo
+        · have hbn : boolCtx n = false := by
+            cases n <;> simp [likeOp] at hln <;> rfl
+          rw [show mkBinary l r n ty (some op) esc = .binary n l r (some op) esc ty from by
+            simp only [mkBinary, selfGroup_closed n l cl hbn, selfGroup_closed n r cr hbn]]
+          refine ⟨?_, ?_, ?_⟩
+          · simp [Core, hln.1, cl, cr, hcl, hcr]
+          · have hwl : wouldGroup (some n) l = false := wouldGroup_closed _ l cl
+            have hwr : wouldGroup (some n) r = false := wouldGroup_closed _ r cr
+            simp [WG, hwl, hwr, hw.1.2, hw.2]
+          · simp [boolShape, hln.2]
   | clist op cs gr bl ty => exact unary_inv_boolE _ _ hc hw
   | unary op x ty =>
     simp only [negate]
@@ -500,14 +533,22 @@ theorem precOf_core_gt_asbool : ∀ op, (coreBin op = true ∨ coreList op = tru
   intro op h
   cases op <;> simp [coreBin, coreList, coreUn] at h <;> decide
 
+theorem precOf_like_gt_asbool : ∀ op, likeOp op = true → isPrecedent op (some .asbool_) = false := by
+  intro op h
+  cases op <;> simp [likeOp] at h <;> decide
+
 theorem selfGroup_asbool_boolE (c : SaExpr) (h : BoolE c) : selfGroup (some .asbool_) c = c := by
   obtain ⟨hc, _, hs⟩ := h
   cases c with
   | binary op l r n esc ty =>
-    have hop : coreBin op = true := by
-      cases n <;> cases esc <;> simp [boolShape] at hs
-      exact hs.1
-    have := precOf_core_gt_asbool op (Or.inl hop)
+    have : isPrecedent op (some .asbool_) = false := by
+      cases n with
+      | none => simp [boolShape] at hs
+      | some n =>
+        simp only [boolShape, Bool.or_eq_true, Bool.and_eq_true] at hs
+        rcases hs with hs | hs
+        · exact precOf_core_gt_asbool op (Or.inl hs.1.1)
+        · exact precOf_like_gt_asbool op (by cases op <;> cases n <;> simp [likePair] at hs <;> rfl)
     simp [selfGroup, wouldGroup, this]
   | clist op cs gr bl ty =>
     simp only [Core, Bool.and_eq_true] at hc
@@ -663,6 +704,54 @@ end SaVerif.Expr
 
 namespace SaVerif.Expr
 open SaVerif.Expr.Gen SaVerif.Pratt SaExpr
+
+/-! ### the LIKE family -/
+
+theorem likeK_facts : ∀ k : LikeK, likeOp k.op = true ∧ associative k.op = false ∧
+    ∃ n, negateOp k.op = some n ∧ likePair k.op n = true := by
+  intro k
+  cases k <;> exact ⟨rfl, by decide, _, rfl, rfl⟩
+
+theorem like_not_boolCtx {op : Op} (h : likeOp op = true) : boolCtx op = false := by
+  cases op <;> simp [likeOp] at h <;> rfl
+
+/-- a string-valued operand under LIKE: a concatenation gets its parentheses (same precedence
+    number), everything else is an atom or a bracket already -/
+theorem like_opnd_closed (op : Op) (hl : likeOp op = true) (x : SaExpr) (hx : OpndE x)
+    (hc : catOpnd x = true) : closedE (selfGroup (some op) x) = true := by
+  by_cases hg : wouldGroup (some op) x = true
+  · simp [selfGroup, hg, closedE, rootOp]
+  · have hg' : wouldGroup (some op) x = false := by simpa using hg
+    cases hr : rootOp x with
+    | none =>
+      have hcl : closedE x = true := by simp [closedE, hr]
+      rw [selfGroup_closed op x hcl (like_not_boolCtx hl)]; exact hcl
+    | some o =>
+      simp only [catOpnd, hr, decide_eq_true_eq] at hc
+      subst hc
+      exfalso
+      have hnp := not_precedent_of_not_wouldGroup hx.core hr hg'
+      cases op <;> simp [likeOp] at hl <;> revert hnp <;> decide
+
+theorem booleanCompare_opnd_eq (x y : SaExpr) (op : Op) (n : Option Op) (esc : Option String)
+    (hy : OpndE y) :
+    booleanCompare x op y n esc = some (constructForOp x y op .bool n esc) := by
+  have hs := hy.shape
+  cases y <;> simp [numShape] at hs <;> rfl
+
+/-- `x.like(y, escape=…)` & co. over string-valued operands -/
+theorem mkBinary_like (x y : SaExpr) (op n : Op) (esc : Option String) (hl : likeOp op = true)
+    (hp : likePair op n = true) (hx : OpndE x) (hcx : catOpnd x = true)
+    (hy : OpndE y) (hcy : catOpnd y = true) :
+    BoolE (mkBinary x y op .bool (some n) esc) := by
+  obtain ⟨c1, w1, g1⟩ := selfGroup_core op x hx.core hx.wg (Or.inl (like_not_boolCtx hl))
+  obtain ⟨c2, w2, g2⟩ := selfGroup_core op y hy.core hy.wg (Or.inl (like_not_boolCtx hl))
+  have k1 := like_opnd_closed op hl x hx hcx
+  have k2 := like_opnd_closed op hl y hy hcy
+  refine ⟨?_, ?_, ?_⟩
+  · simp [mkBinary, Core, hl, k1, k2, c1, c2]
+  · simp [mkBinary, WG, w1, w2, g1, g2]
+  · simp [mkBinary, boolShape, hp]
 
 /-! ### `build` over the API-call fragment -/
 
@@ -1026,13 +1115,14 @@ theorem build_searched : ∀ (us : List U) (es : List SaExpr), SearchedU us = tr
             · exact ih.res x hx
 
 /-- **build_str**: string-valued API-call trees build well grouped core elements -/
-theorem build_str : ∀ (u : U) (e : SaExpr), StrU u = true → build u = some e → OpndE e
+theorem build_str : ∀ (u : U) (e : SaExpr), StrU u = true → build u = some e →
+    OpndE e ∧ catOpnd e = true
   | .col n ty, e, _, hb => by
     simp only [build, Option.some.injEq] at hb; subst hb
-    exact ⟨rfl, rfl, rfl⟩
+    exact ⟨⟨rfl, rfl, rfl⟩, rfl⟩
   | .ls s, e, _, hb => by
     simp only [build, Option.some.injEq] at hb; subst hb
-    exact ⟨rfl, rfl, rfl⟩
+    exact ⟨⟨rfl, rfl, rfl⟩, rfl⟩
   | .bin k a b, e, hu, hb => by
     simp only [StrU, Bool.and_eq_true, Bool.or_eq_true, decide_eq_true_eq] at hu
     obtain ⟨⟨hk, hua⟩, hub⟩ := hu
@@ -1048,11 +1138,11 @@ theorem build_str : ∀ (u : U) (e : SaExpr), StrU u = true → build u = some e
         subst hb
         have nx : OpndE x := by
           rcases hua with h | h
-          · exact build_str a x h ha
+          · exact (build_str a x h ha).1
           · exact (build_num a x h ha).opnd
         have ny : OpndE y := by
           rcases hub with h | h
-          · exact build_str b y h hb'
+          · exact (build_str b y h hb').1
           · exact (build_num b y h hb').opnd
         exact binaryOperate_concat x y nx ny
   | .li _, _, hu, _ => by simp [StrU] at hu
@@ -1090,7 +1180,7 @@ theorem build_bool : ∀ (u : U) (e : SaExpr), BoolU u = true → build u = some
       have nx : OpndE x := by
         rcases hna with h | h
         · exact (build_num a x h ha).opnd
-        · exact build_str a x h ha
+        · exact (build_str a x h ha).1
       have hpl : isPyLit a = false := by
         cases a <;> first | rfl | (rcases hna with h | h <;> simp [NumU, StrU] at h)
       cases hb' : build b with
@@ -1101,7 +1191,7 @@ theorem build_bool : ∀ (u : U) (e : SaExpr), BoolU u = true → build u = some
         · have ny : OpndE y := by
             rcases hnb with h | h
             · exact (build_num b y h hb').opnd
-            · exact build_str b y h hb'
+            · exact (build_str b y h hb').1
           have hpr := pyReflected_num x y ny
           simp only [hpr, hpl, Bool.or_false, Bool.false_eq_true, if_false] at hb
           obtain ⟨e', he', be'⟩ := booleanCompare_num x y k hk nx ny
@@ -1166,7 +1256,24 @@ theorem build_bool : ∀ (u : U) (e : SaExpr), BoolU u = true → build u = some
   | .null, _, hu, _ => by simp [BoolU] at hu
   | .true_, _, hu, _ => by simp [BoolU] at hu
   | .false_, _, hu, _ => by simp [BoolU] at hu
-  | .like _ _ _ _, _, hu, _ => by simp [BoolU] at hu
+  | .like k esc a b, e, hu, hb => by
+    simp only [BoolU, Bool.and_eq_true] at hu
+    simp only [build] at hb
+    cases ha : build a with
+    | none => simp [ha] at hb
+    | some x =>
+      cases hb' : build b with
+      | none => simp [ha, hb'] at hb
+      | some y =>
+        simp only [ha, hb'] at hb
+        obtain ⟨nx, cx⟩ := build_str a x hu.1 ha
+        obtain ⟨ny, cy⟩ := build_str b y hu.2 hb'
+        obtain ⟨hl, hna, n, hn, hp⟩ := likeK_facts k
+        rw [booleanCompare_opnd_eq x y k.op _ esc ny, hn] at hb
+        simp only [Option.some.injEq] at hb
+        subst hb
+        simp only [constructForOp, hna, Bool.false_eq_true, if_false]
+        exact mkBinary_like x y k.op n esc hl hp nx cx ny cy
   | .neg _, _, hu, _ => by simp [BoolU] at hu
   | .between _ _ _, _, hu, _ => by simp [BoolU] at hu
   | .case_ _ _ _, _, hu, _ => by simp [BoolU] at hu
